@@ -273,6 +273,9 @@ theorem boot_keep : LibSrc.boot_keep = "(defn keep [v1 v2 & v3] (def v4 @[]) (ma
 theorem boot_mapcat : LibSrc.boot_mapcat = "(defn mapcat [v1 v2 & v3] (def v4 @[]) (map-template :mapcat v4 v1 v2 v3) v4)" := rfl
 /-- boot.janet group-by -/
 theorem boot_group_by : LibSrc.boot_group_by = "(defn group-by [v1 v2] (def v3 @{}) (each v4 v2 (def v5 (v1 v4)) (if-let [v6 (get v3 v5)] (array/push v6 v4) (put v3 v5 @[v4]))) v3)" := rfl
+/-- boot.janet some -/
+theorem boot_some : LibSrc.boot_some = "(defn some [v1 v2 & v3] (var v4 nil) (map-template :some v4 v1 v2 v3) v4)" := rfl
+/-- boot.janet all -/
+theorem boot_all : LibSrc.boot_all = "(defn all [v1 v2 & v3] (var v4 true) (map-template :all v4 v1 v2 v3) v4)" := rfl
 
 end JanetModel.Lib.SrcTie
-
